@@ -356,6 +356,51 @@ def _register_itertools() -> None:
 
 _register_itertools()
 
+
+def _register_tee() -> None:
+    """tee(): first and later iterators, and forks of a tee iterator that is fresh, part-way or exhausted"""
+    inputs: dict[str, Callable[[], Any]] = {
+        "sync[]": lambda: [],
+        "sync[1]": lambda: [1],
+        "sync[1,0,2]": lambda: [1, 0, 2],
+        "async-empty": lambda: _empty_async(),
+    }
+    for iname, mkin in inputs.items():
+        for which in (0, 1):
+
+            @cell(f"itertools.tee[iterator {which} of 2]<{iname}>", cancel=False)
+            async def _(tg: Any, mkin: Any = mkin, which: int = which) -> Any:
+                async def op() -> None:
+                    async for _x in ait.tee(mkin(), 2)[which]:
+                        pass
+
+                return op, (lambda: 0), _noop
+
+        for consumed in ("fresh", "one", "all"):
+
+            @cell(f"itertools.tee[fork of a tee iterator, {consumed} consumed]<{iname}>", cancel=False)
+            async def _(tg: Any, mkin: Any = mkin, consumed: str = consumed) -> Any:
+                (parent,) = ait.tee(mkin(), 1)
+                if consumed == "one":
+                    try:
+                        await anext(parent)
+                    except StopAsyncIteration:
+                        pass
+                elif consumed == "all":
+                    async for _x in parent:
+                        pass
+
+                async def op() -> None:
+                    for fork in ait.tee(parent, 2):
+                        async for _x in fork:
+                            pass
+                        break  # one full traversal of one fork is the operation
+
+                return op, (lambda: 0), _noop
+
+
+_register_tee()
+
 # ------------------------------------------------------------------------- probes
 
 
@@ -374,6 +419,22 @@ async def probe_cell(name: str) -> dict[str, Any]:
                 before = snap()
                 returned = False
                 raised: str | None = None
+                # an observer on the loop samples the state in every cycle while the call is in
+                # progress: a refused operation must not change it even transiently
+                seen: list[Any] = []
+                watching = [True]
+                loop = asyncio.get_running_loop()
+
+                def watch(k: int = 0, snap: Any = snap, seen: list = seen, watching: list = watching) -> None:
+                    if not watching[0] or k > 8:
+                        return
+                    try:
+                        seen.append(snap())
+                    except BaseException as e:  # noqa: BLE001
+                        seen.append(("snapshot failed", repr(e)))
+                    loop.call_soon(watch, k + 1)
+
+                loop.call_soon(watch)
                 with CancelScope(shield=(shape == "own+shield")) as sc:
                     sc.cancel()
                     try:
@@ -386,7 +447,12 @@ async def probe_cell(name: str) -> dict[str, Any]:
                     except BaseException as e:
                         raised = type(e).__name__
                         raise
+                watching[0] = False
                 after = snap()
+                odd = [x for x in seen if x != before]
+                if odd:
+                    out["C_state_unchanged"] = False
+                    out["C_detail"] += f"[{shape}: an observer saw {odd[0]!r} during the call] "
                 if returned or not sc.cancelled_caught:
                     out["C_raised_cancel"] = False
                 if before != after:
